@@ -660,6 +660,8 @@ where
             } else if (index as usize) < slots.len() {
                 shared.allocated += 1;
             } else {
+                // `delta` accounts for the node that cannot be created
+                shared.node_count -= 1;
                 return Err(OutOfMemory);
             }
             // SAFETY: `index` is in bounds, the slot is uninitialized
@@ -678,6 +680,8 @@ where
             let index = shared.allocated;
             let slots = &self.inner_nodes.slots;
             if (index as usize) >= slots.len() {
+                // `delta` accounts for the node that cannot be created
+                shared.node_count -= 1;
                 return Err(OutOfMemory);
             }
             shared.allocated += 1;
